@@ -80,7 +80,7 @@ def run_watched(cmd, env, idle_limit=None):
     outside any scheduling point cannot be seen by the step budget).  Returns an object with returncode / stdout / stderr."""
     import threading
     idle_limit = idle_limit or RUN_TIMEOUT
-    pr = subprocess.Popen(cmd, stdout=subprocess.PIPE, stderr=subprocess.PIPE, text=True, env=env)
+    pr = subprocess.Popen(cmd, stdout=subprocess.PIPE, stderr=subprocess.PIPE, text=True, errors="replace", env=env)
     out, err, last = [], [], [time.time()]
 
     def rd(stream, sink):
@@ -121,7 +121,7 @@ def replay_once(binary, rec, plan, decisions, tmp_path, env=None):
         obj["decisions"] = decisions
     json.dump(obj, open(tmp_path, "w"))
     try:
-        p = subprocess.run(bin_cmd(binary) + ["--replay", tmp_path], stdout=subprocess.PIPE, stderr=subprocess.PIPE, text=True, env=env, timeout=RUN_TIMEOUT)
+        p = subprocess.run(bin_cmd(binary) + ["--replay", tmp_path], stdout=subprocess.PIPE, stderr=subprocess.PIPE, text=True, errors="replace", env=env, timeout=RUN_TIMEOUT)
     except subprocess.TimeoutExpired:
         return "hang", {"detail": "WATCHDOG: no result within the wall-clock limit (busy loop outside any scheduling point)"}
     out = None
@@ -282,7 +282,7 @@ def run_sim_check(spec, args):
         rep = json.load(open(args.replay))
         v = rep.get("variant", "") or variants[0]
         b = binaries.get(v, binaries[variants[0]])
-        p = subprocess.run(bin_cmd(b) + ["--replay", args.replay], stdout=subprocess.PIPE, stderr=subprocess.PIPE, text=True, env=env)
+        p = subprocess.run(bin_cmd(b) + ["--replay", args.replay], stdout=subprocess.PIPE, stderr=subprocess.PIPE, text=True, errors="replace", env=env)
         cls, out = "no-output", {}
         for line in p.stdout.splitlines():
             if line.startswith("{"):
@@ -400,7 +400,7 @@ def run_sim_check(spec, args):
         if "plan" not in rec:
             # the run never reported (hard crash, watchdog): regenerate its plan from the seed; the schedule is then re-derived from the
             # same seed on replay (PRNG mode), which reproduces the run exactly
-            pp = subprocess.run(bin_cmd(binaries[rec["variant"]]) + ["--seeds", str(rec["seed"]), "1", "1", "--tier", str(tier_num), "--variant", rec["variant"], "--plan-only"], stdout=subprocess.PIPE, stderr=subprocess.PIPE, text=True, env=env)
+            pp = subprocess.run(bin_cmd(binaries[rec["variant"]]) + ["--seeds", str(rec["seed"]), "1", "1", "--tier", str(tier_num), "--variant", rec["variant"], "--plan-only"], stdout=subprocess.PIPE, stderr=subprocess.PIPE, text=True, errors="replace", env=env)
             for line in pp.stdout.splitlines():
                 if line.startswith("{"):
                     pr = json.loads(line)
@@ -436,10 +436,16 @@ def run_sim_check(spec, args):
 
     with concurrent.futures.ThreadPoolExecutor(max_workers=4) as ex:
         results = list(ex.map(handle_group, enumerate(sorted(groups))))
+    results = [r for r in results if r is not None]
     if machinery_errors:
+        # A symptom that does not replay (typically undefined behaviour reading garbage: the same defect shows up as several classes, some of
+        # which depend on what the freed memory happens to hold) is never reported as a violation.  When every symptom is of that kind the
+        # machinery cannot stand behind anything it saw: exit 2.  When other classes of the same run did pass both gates they are reported
+        # on their own merits and the unstable ones are only listed.
         for m in machinery_errors:
-            log("MACHINERY ERROR: " + m)
-        return 2
+            log(("UNSTABLE (not counted): " if results else "MACHINERY ERROR: ") + m)
+        if not results:
+            return 2
     for entry, lines in results:
         for l in lines:
             log(l)
